@@ -1,6 +1,10 @@
 SPECIFICATION FairSpec
 CONSTANTS
   Clients = {1, 2}
+  Procs = {1, 2}
+  ClientOf <- CO_id
+  NilProcs = {}
+  LoadProcs = {1, 2}
   Keys = {1}
   MaxInc = 2
   MaxLoads = 2
@@ -16,6 +20,9 @@ CONSTANTS
   BugReturnPh = FALSE
   BugNoLiveness = FALSE
   BugDelNoCompare = FALSE
+  BugNoAdopt = FALSE
+  BugNilFastPath = FALSE
+  BugStealPlainDel = FALSE
   Record = FALSE
   GenLen = 30
 
